@@ -9,6 +9,7 @@
 package main
 
 import (
+	"encoding/base64"
 	"encoding/json"
 	"fmt"
 	"os"
@@ -37,16 +38,17 @@ type bounds struct {
 	// trees with more nodes run the histories other than "once" only with the all-functions
 	// factory, the full set and the singleton sets
 	fullHistoryUpTo int
+	tailFormNodes   int // bound of the family over the extended tail-call forms
 }
 
 func tierBounds(thorough bool) bounds {
-	b := bounds{maxNodes: 4, rotUpTo: 3, histories: []string{"once", "twice", "cache", "reopen", "other"}, fullHistoryUpTo: 4,
+	b := bounds{maxNodes: 4, rotUpTo: 3, histories: []string{"once", "twice", "cache", "reopen", "other"}, fullHistoryUpTo: 3, tailFormNodes: 3,
 		chainPattern: []string{"d", "i", "dim", "dhr"}}
 	for d := 1; d <= 40; d++ {
 		b.chainDepths = append(b.chainDepths, d)
 	}
 	if thorough {
-		b.maxNodes, b.rotUpTo = 5, 4
+		b.maxNodes, b.rotUpTo, b.fullHistoryUpTo, b.tailFormNodes = 5, 4, 4, 4
 	}
 	return b
 }
@@ -61,6 +63,15 @@ func buildUnits(b bounds) []unit {
 			}
 			for r := 0; r < rots; r++ {
 				us = append(us, unit{"tree", t.String(), r})
+			}
+		}
+	}
+	// every tail-call form (return_call_indirect, return_call to an imported / host function):
+	// smaller trees over the extended edge alphabet, only those using one of the extra forms
+	for n := 2; n <= b.tailFormNodes; n++ {
+		for _, t := range enumTreesKinds(n, "dimhtuvw") {
+			if strings.ContainsAny(t.String(), "uvw") {
+				us = append(us, unit{"tree", t.String(), n % 3})
 			}
 		}
 	}
@@ -308,7 +319,11 @@ func runUnit(u unit, b bounds) (res unitResult) {
 			}
 		}
 	}
-	res.Sample = map[string]any{"tree": u.Tree, "rot": u.Rot, "family": u.Fam}
+	{
+		p := buildProgram(t, false, u.Rot)
+		ev, out := runModel(t, p.sigs, func(int) bool { return true }, modelOpts{})
+		res.Sample = map[string]any{"tree": u.Tree, "rot": u.Rot, "family": u.Fam, "reference_result": out.String(), "reference_stream_all_listened": clip(streamString(ev))}
+	}
 	return
 }
 
@@ -356,7 +371,8 @@ func main() {
 		fw.ChildLoop(func(i int) string {
 			r := runUnit(units[i], b)
 			out, _ := json.Marshal(r)
-			return string(out)
+			// base64: the supervisor protocol rewrites "\\n" sequences, which would corrupt JSON escapes
+			return base64.StdEncoding.EncodeToString(out)
 		})
 		return
 	}
@@ -370,7 +386,7 @@ func main() {
 	var evals, distinct int64
 	var nTree, nChain int64
 	t0 := time.Now()
-	done := fw.Supervise(fw.SupOpts{N: len(units), Workers: runtime.NumCPU(), CaseTimeout: 120 * time.Second, Mode: run.Tier,
+	done := fw.Supervise(fw.SupOpts{N: len(units), Workers: runtime.NumCPU(), CaseTimeout: 300 * time.Second, Mode: run.Tier,
 		Env: []string{"GOMAXPROCS=1", "GOGC=400"}, Stop: run.Expired},
 		func(i int, res string, crash *fw.Crash) {
 			u := units[i]
@@ -381,7 +397,11 @@ func main() {
 				return
 			}
 			var r unitResult
-			if err := json.Unmarshal([]byte(res), &r); err != nil {
+			raw, err := base64.StdEncoding.DecodeString(res)
+			if err != nil {
+				fw.Fatalf("child result of unit %d: %v", i, err)
+			}
+			if err := json.Unmarshal(raw, &r); err != nil {
 				fw.Fatalf("child result of unit %d: %v", i, err)
 			}
 			if r.Harness != "" {
@@ -420,8 +440,8 @@ func main() {
 		Evaluations: evals, DistinctNontriv: distinct,
 		Rule: "evaluation = one execution of a generated program on one engine under one compilation history with one listener set (or none); distinct non-trivial = distinct (tree, signature rotation, start-variant, listener set) whose reference event stream is non-empty, counted once across engines and histories",
 		Samples: samples.List(), Exhaustive: true, Outcomes: outcomes.Map(),
-		Bounds: map[string]any{"max_nodes": b.maxNodes, "edge_kinds": "d,i,m,h,t,r", "outcomes": "R,T,P,E,S", "signature_rotations_up_to_nodes": b.rotUpTo,
-			"chain_depths": "1..40", "chain_patterns": b.chainPattern, "chain_leaves": "R,T,P,E", "histories": b.histories, "engines": []string{"interpreter", "compiler"},
+		Bounds: map[string]any{"max_nodes": b.maxNodes, "edge_kinds": "d,i,m,h,t,r", "tail_form_family": fmt.Sprintf("edge kinds d,i,m,h,t,u,v,w,r; trees with <= %d nodes using u, v or w", b.tailFormNodes), "outcomes": "R,T,P,E,S", "signature_rotations_up_to_nodes": b.rotUpTo,
+			"chain_depths": "1..40", "chain_patterns": b.chainPattern, "chain_leaves": "R,T,P,E", "histories": b.histories, "all_listener_sets_under_every_history_up_to_nodes": b.fullHistoryUpTo, "engines": []string{"interpreter", "compiler"},
 			"listener_sets": "every subset of the nodes + all-functions factory (trees); full/even/odd/root/leaf/all-functions (chains)"},
 		Extra: map[string]any{"units": len(units), "units_done": done, "tree_units": nTree, "chain_units": nChain, "units_by_size": byN, "explore_wall_s": time.Since(t0).Seconds()},
 	}, []string{
